@@ -30,7 +30,7 @@ func scnMon(w *World) *MonScn {
 // ---------------------------------------------------------------------------
 // C16: HTTP rendering
 
-var c16Keys = []string{"a", "b", "r", `q"uote`, "é", "", "sl\\ash", "<tag>", "nl\n"}
+var c16Keys = []string{"a", "b", "r", `q"uote`, "é", "", "sl\\ash", "<tag>", "nl\n", "bell\x07", "unit\x1f", "del\x7f", "soh\x01", "tag\U000e0001", "\u2028ls", "tab\t"}
 
 func c16Config(t *rapid.T, p *Profile) WorldConfig {
 	n := rapid.IntRange(1, 6).Draw(t, "nres")
